@@ -15,7 +15,7 @@ for patch in $(ls $root/[RS]*/*/patch.diff | sort -V); do
   rsync -a --exclude .git /repo/ "$scratch/repo/"
   cp -r /verif/rules /verif/known_findings.json "$scratch/verif/"
   if ! (cd "$scratch/repo" && patch -p1 -s --batch < "$patch" >/dev/null 2>&1); then echo "$name PATCH-FAILED"; rm -rf "$scratch"; continue; fi
-  for p in $props; do echo $p; done | xargs -P 6 -I{} sh -c "/verif/bin/gmcheck -property {} -repo $scratch/repo -verif $scratch/verif -nofixtures > $scratch/{}.out 2>&1"
+  for p in $props; do echo $p; done | xargs -P 6 -I{} sh -c "${GMCHECK:-/verif/bin/gmcheck} -property {} -repo $scratch/repo -verif $scratch/verif -nofixtures > $scratch/{}.out 2>&1"
   for p in $props; do
     if grep -q "^gmcheck: load:" $scratch/$p.out; then echo "$name $p LOAD-FAIL $(grep '^gmcheck: load:' $scratch/$p.out | head -1 | cut -c1-200)"; continue; fi
     if grep -q "^VIOLATION" $scratch/$p.out; then
